@@ -1,0 +1,125 @@
+//go:build verif
+// +build verif
+
+package nitro
+
+import (
+	"bufio"
+	"os"
+	"sync/atomic"
+	"unsafe"
+
+	"github.com/couchbase/nitro/skiplist"
+)
+
+// Verification hook points (build tag verif only).
+const (
+	VpOpenChecked         = iota + 101 // Snapshot.Open: refcount read, before the increment (arg = snapshot)
+	VpCloseDecremented                 // Snapshot.Close: after the decrement (arg = snapshot)
+	VpCloseRetired                     // Snapshot.Close: after moving to the retired list, before GC (arg = snapshot)
+	VpGCEntered                        // GC: collector flag taken
+	VpGCLeaving                        // GC: before dropping the collector flag
+	VpCollectBeforeSend                // collectDead: before handing a list to the workers (arg = snapshot)
+	VpDelNodeEntry                     // Writer.DeleteNode: on entry (arg = node)
+	VpDelNodeBeforeCAS                 // Writer.DeleteNode: before the deadSn CAS (arg = node)
+	VpDelNodeBeforeFlush               // Writer.DeleteNode: before FlushSession (arg = node)
+	VpDelete2Found                     // Writer.Delete2: lookup returned a node, before DeleteNode (arg = node)
+	VpStoreBeforeManifest              // StoreToDisk: before a manifest file write (arg = *string path)
+	VpStoreAfterManifest               // StoreToDisk: after a manifest file write (arg = *string path)
+	VpStoreReturning                   // StoreToDisk: body finished, deferred closes about to run
+	VpFileBeforeFlush                  // rawFileWriter.Close: before Flush (arg = *string path)
+	VpFileBeforeClose                  // rawFileWriter.Close: before fd.Close (arg = *string path)
+	VpFileClosed                       // rawFileWriter.Close: after fd.Close (arg = *string path)
+	VpWorkerBeforeUnlink               // collectionWorker: before unlinking one dead node (arg = node)
+	VpWorkerBeforeFlush                // collectionWorker: before FlushSession of a collected list
+	VpFreeBeforeFree                   // freeWorker: before freeing one node (arg = node)
+)
+
+type verifHookFn func(id int, arg unsafe.Pointer)
+
+var verifHook atomic.Value
+
+// VerifSetHook installs (or, with nil, removes) the process-wide hook callback.
+func VerifSetHook(fn func(id int, arg unsafe.Pointer)) {
+	verifHook.Store(verifHookFn(fn))
+}
+
+func verifPoint(id int, arg unsafe.Pointer) {
+	if h, _ := verifHook.Load().(verifHookFn); h != nil {
+		h(id, arg)
+	}
+}
+
+func verifPathPoint(id int, path string) {
+	verifPoint(id, unsafe.Pointer(&path))
+}
+
+// VerifFileWriteFn replaces the write(2) of a backup shard file: it is handed
+// the file, its path and the bytes bufio wants to write.
+type VerifFileWriteFn func(fd *os.File, path string, p []byte) (int, error)
+
+var verifFileWrite atomic.Value
+
+// VerifSetFileWrite installs (or removes) the shard-file write interposer.
+func VerifSetFileWrite(fn VerifFileWriteFn) {
+	verifFileWrite.Store(fn)
+}
+
+type verifFileWriter struct {
+	fd   *os.File
+	path string
+}
+
+func (w *verifFileWriter) Write(p []byte) (int, error) {
+	if fn, _ := verifFileWrite.Load().(VerifFileWriteFn); fn != nil {
+		return fn(w.fd, w.path, p)
+	}
+	return w.fd.Write(p)
+}
+
+// verifWrapWriter returns a buffered writer of the same size that routes the
+// underlying writes through the interposer.
+func verifWrapWriter(w *bufio.Writer, fd *os.File, path string) *bufio.Writer {
+	return bufio.NewWriterSize(&verifFileWriter{fd: fd, path: path}, w.Size())
+}
+
+// VerifStore returns the underlying skiplist.
+func (m *Nitro) VerifStore() *skiplist.Skiplist {
+	return m.store
+}
+
+// VerifQueueLens returns the lengths of the collection and free queues.
+func (m *Nitro) VerifQueueLens() (gc int, free int) {
+	return len(m.gcchan), len(m.freechan)
+}
+
+// VerifSnapshotLists returns the number of open and retired-but-uncollected snapshots.
+func (m *Nitro) VerifSnapshotLists() (open int, retired int) {
+	return m.snapshots.GetStats().NodeCount, m.gcsnapshots.GetStats().NodeCount
+}
+
+// VerifIsGCRunning reports the collector flag.
+func (m *Nitro) VerifIsGCRunning() bool {
+	return atomic.LoadInt32(&m.isGCRunning) != 0
+}
+
+// VerifItemMeta decodes an item pointer.
+func VerifItemMeta(p unsafe.Pointer) (born, dead uint32, data []byte) {
+	itm := (*Item)(p)
+	return itm.bornSn, atomic.LoadUint32(&itm.deadSn), itm.Bytes()
+}
+
+// VerifSn returns the snapshot's epoch.
+func (s *Snapshot) VerifSn() uint32 {
+	return s.sn
+}
+
+// VerifRefCount returns the snapshot's reference count.
+func (s *Snapshot) VerifRefCount() int32 {
+	return atomic.LoadInt32(&s.refCount)
+}
+
+// VerifWriterGCList returns the writer's pending garbage list head and tail.
+func (w *Writer) VerifWriterGCList() (head, tail *skiplist.Node) {
+	return w.gchead, w.gctail
+}
